@@ -175,7 +175,8 @@ def broadcast_shapes(*args: t.Sequence[int]) -> t.Tuple[int, ...]:
     # our own implementation, with worse error messages
     out_shape: t.List[int] = []
     for ax_lens in zip_longest(*(reversed(arg) for arg in args), fillvalue=1):
-        bcast = max(ax_lens)
+        # the common extent of the axes that aren't 1 (not max(): an extent of 0 broadcasts with 1, giving 0)
+        bcast = next((ax_len for ax_len in ax_lens if ax_len != 1), 1)
         if not all(ax_len in (1, bcast) for ax_len in ax_lens):
             shapes = [f"'{tuple(arg)!r}'" for arg in args]
             raise ValueError(f"Couldn't broadcast shapes {list_phrase(shapes, 'and')}")
